@@ -584,6 +584,7 @@ def exec_ni_history(hist, rp):
         if scale == 1.0 and op["alias"] != "sameab":
             last_call["op"] = {k_: v_ for k_, v_ in op.items() if k_ != "fault"}
             last_call["out"] = (np.array(n, copy=True), np.array(e, copy=True), np.array(v, copy=True))
+            last_call.setdefault("all", {})[step] = (last_call["op"], last_call["out"])
         stats["held_results_rechecked"] += 2
         for idx, j in enumerate(op["dms"]):
             if op["alias"] == "sameab":
@@ -1601,35 +1602,40 @@ def gen_history(kind, seed):
 
 
 def process_fresh_reference(hist, last, rp):
-    """The last integrator call of the history once more, alone, in a fresh interpreter
-    (other PYTHONHASHSEED): fresh objects inside this process share its module-level state
-    (tables memoised at import level, id()-keyed caches) with the long-lived ones, a new
-    process does not."""
+    """Every completed integrator call of the history once more in a fresh interpreter (other
+    PYTHONHASHSEED), each on fresh objects and in REVERSE order: fresh objects inside this
+    process share its module-level state (tables memoised at import level, id()-keyed caches)
+    with the long-lived ones, a new process does not, and state that leaks from one call into
+    a later one leaks the other way round there."""
     import subprocess
 
+    calls = last.get("all") or {}
+    steps = sorted(calls)[-6:]
+    if not steps:
+        return [], 0
     sub = {k: v for k, v in hist.items() if k != "ops"}
-    sub["ops"] = [last["op"]]
     sub["scribble"] = False
+    job = {"hist": sub, "ops": [[st_, calls[st_][0]] for st_ in reversed(steps)]}
     env = dict(os.environ)
-    env["PYTHONHASHSEED"] = str(1 + (hash(json.dumps(last["op"], sort_keys=True)) % 4000 if False else 7))
+    env["PYTHONHASHSEED"] = "7"
     env["PYTHONPATH"] = os.path.dirname(os.path.dirname(os.path.dirname(os.path.abspath(__file__))))
-    p = subprocess.run([sys.executable, "-m", "cidersim.engines.history_child"], input=json.dumps(sub).encode(), capture_output=True, env=env, timeout=900)
+    p = subprocess.run([sys.executable, "-m", "cidersim.engines.history_child"], input=json.dumps(job).encode(), capture_output=True, env=env, timeout=1800)
     lines = p.stdout.decode().strip().splitlines()
     if p.returncode != 0 or not lines:
         return [{"key": "process-fresh:child-failed", "detail": "rc=%s %s" % (p.returncode, p.stderr.decode()[-300:]), "replay": rp}], 0
     res = json.loads(lines[-1])
-    if res.get("violations"):
-        # the single call disagrees with fresh objects even in a new process: reported by the
-        # in-process check already, nothing to add
-        return [], 1
-    if "out" not in res:
-        return [], 1
     viol = []
-    for name, got, want in zip(("nelec", "excsum", "vmat"), last["out"], res["out"]):
-        ok, why = close(got, np.asarray(want, dtype=float).reshape(np.shape(got)) if np.size(want) == np.size(got) else np.asarray(want))
-        if not ok:
-            viol.append({"key": "history_vs_fresh_process:%s:%s" % ("nr_uks" if last["op"]["uks"] else "nr_rks", name), "detail": "the last call of the history differs from the same call made alone in a fresh interpreter: %s" % why, "replay": rp})
-    return viol, 1
+    for st_ in steps:
+        r_ = res.get(str(st_))
+        if not r_ or r_.get("violations") or "out" not in r_:
+            continue  # that call disagrees with fresh objects even there: the in-process check reports it
+        op_, out_ = calls[st_]
+        for name, got, want in zip(("nelec", "excsum", "vmat"), out_, r_["out"]):
+            want = np.asarray(want, dtype=float)
+            ok, why = close(got, want.reshape(np.shape(got)) if want.size == np.size(got) else want)
+            if not ok:
+                viol.append({"key": "history_vs_fresh_process:%s:%s" % ("nr_uks" if op_["uks"] else "nr_rks", name), "detail": "call at step %d differs from the same call made in a fresh interpreter (calls in reverse order): %s" % (st_, why), "replay": rp})
+    return viol, len(steps)
 
 
 def run_case(spec):
@@ -1645,7 +1651,7 @@ def run_case(spec):
         if last and "out" in last:
             out["out"] = [np.asarray(x).tolist() for x in last["out"]]
         return out
-    if spec.get("proc_ref") and hist["kind"] == "ni" and last and "out" in last and not viol:
+    if spec.get("proc_ref") and hist["kind"] == "ni" and last and last.get("all") and not viol:
         v2, n2 = process_fresh_reference(hist, last, rp)
         viol += v2
         stats["process_fresh_references"] += n2
@@ -1694,7 +1700,7 @@ def plan(tier, seed, args):
     if args.cases is not None:
         n_ni, n_gen, n_ev = args.cases, args.cases // 2, args.cases // 2
     for i in range(n_ni):
-        cases.append({"hkind": "ni", "seed": derive(seed, PROP, "ni", i) % 10**9, "proc_ref": (i % 5 == 2)})
+        cases.append({"hkind": "ni", "seed": derive(seed, PROP, "ni", i) % 10**9, "proc_ref": (i % 4 == 2)})
     for i in range(n_gen):
         cases.append({"hkind": "gen", "seed": derive(seed, PROP, "gen", i) % 10**9})
     for i in range(n_ev):
@@ -1823,7 +1829,7 @@ def coverage(done, tier):
             "allocator_patterns": {k[8:]: v for k, v in tot.items() if k.startswith("perturb_")},
             "calls_interrupted_by_injected_failure": tot["calls_interrupted_by_injected_failure"],
             "everything_dropped_and_garbage_collected": tot["everything_dropped_and_collected"] + tot["grids_dropped_and_collected"],
-            "last_call_recomputed_in_a_fresh_process": tot["process_fresh_references"],
+            "calls_recomputed_in_a_fresh_process_in_reverse_order": tot["process_fresh_references"],
             "injected_failure_sites": {k[11:]: v for k, v in sorted(tot.items()) if k.startswith("fault_site_")},
             "injected_failure_point_beyond_end_of_call": tot["injected_failure_point_beyond_end_of_call"],
             "caller_buffers_overwritten_after_call": tot["caller_buffers_overwritten_after_call"],
